@@ -41,6 +41,26 @@ def ft(x, y, z, *, t, rate=1.0):
     return (1.2 + np.cos(x + y + z)) * (1.0 + 0.25 * np.sin(rate * t))
 
 
+def _lookalike_f2():
+    def f2(x, y, sigma=1.0):  # same name and signature as the module-level f2, different function
+        return 0.25 + np.exp(-(x**2 + y**2) / (2 * sigma**2))
+
+    return f2
+
+
+def fa(x, y, z, table=None):
+    return 1.0 + table[: len(np.atleast_1d(x))] * 0.0 + float(table[1000])
+
+
+def make_lookalike(kind, variant=0):
+    """A leaf that PRINTS like make_leaf(kind, variant) but is a different parameter."""
+    import tdgl
+
+    if kind == "P2":
+        return tdgl.Parameter(_lookalike_f2(), sigma=1.0 + variant)
+    return None
+
+
 def make_leaf(kind, variant=0):
     import tdgl
 
@@ -185,6 +205,10 @@ def gen_cases(tier, seed):
     return cases
 
 
+def ys2_(ys):
+    return ys * 0.5 - 0.11
+
+
 def _eq(a, b):
     a = np.asarray(a); b = np.asarray(b)
     return a.shape == b.shape and np.array_equal(a, b, equal_nan=True)
@@ -229,7 +253,8 @@ def check_tree(tree, rng, V, C):
     try:
         leaves = {}
         comp_shared = build(tree, leaves)
-        for (x, y, z, t) in ((xs, ys, zs, 0.37), (xs, ys, zs, 0.37), (xs, ys, zs, 1.9), (xs, ys, zs, 0.37)):
+        zs2 = zs + 0.731
+        for (x, y, z, t) in ((xs, ys, zs, 0.37), (xs, ys, zs, 0.37), (xs, ys, zs2, 0.37), (xs, ys, zs, 1.9), (xs, ys2_(ys), zs, 1.9), (xs, ys, zs, 0.37)):
             try:
                 with np.errstate(all="ignore"):
                     want = ref_eval(tree, x, y, z, t)
@@ -299,6 +324,27 @@ def check_tree(tree, rng, V, C):
         other = build(other_tree)
         if comp == other:
             viol("different_trees_equal", "equality_not_structural", {"other": text(other_tree)})
+        # a tree that differs in one leaf which merely PRINTS the same (same function name, other function)
+        if "P2" in text(tree):
+            import tdgl
+
+            shared = {}
+            look = make_lookalike("P2", 0)
+            shared[("P2", 0)] = look
+            alike = build(tree, shared)
+            C["lookalike_equality_checks"] = C.get("lookalike_equality_checks", 0) + 1
+            if comp == alike:
+                viol("lookalike_trees_equal", "equality_not_structural", {"note": "leaf replaced by a different function with the same name and kwargs"})
+        # long array keyword arguments differing only in the middle (elided when printed)
+        C["array_kwarg_equality_checks"] = C.get("array_kwarg_equality_checks", 0) + 1
+        import tdgl
+
+        t1 = np.linspace(0, 1, 2001); t2 = t1.copy(); t2[1000] += 0.5
+        pa, pb = tdgl.Parameter(fa, table=t1), tdgl.Parameter(fa, table=t2)
+        if (pa * comp) == (pb * comp) or (comp + pa) == (comp + pb):
+            viol("array_kwarg_trees_equal", "equality_not_structural", {"note": "array kwargs differing only in the elided middle"})
+        if not ((pa * comp) == (tdgl.Parameter(fa, table=t1.copy()) * comp)):
+            viol("equal_trees_unequal", "equality_not_structural", {"note": "equal array kwargs"})
     except Exception as exc:
         viol("equality_raised", "equality_raised", {"error": repr(exc)[:200]})
     # --- cache clearing
